@@ -9,7 +9,7 @@
 (* commits whatever acknowledgement the middleware returns.                *)
 (***************************************************************************)
 EXTENDS Integers, TLC
-CONSTANTS Vouchers, AmtClasses, RecvClasses,
+CONSTANTS Vouchers, AmtClasses, RecvClasses, NatMax,
           BackDenoms,        \* the vouchers whose holder may send them back (a subset of Vouchers; bounds the model)
           HookReturnsAck     \* TRUE: the hook returns the transfer application's acknowledgement (repaired code)
 VARIABLES enabled, vbal, esc, sup, tok, registered, pairon,
@@ -17,13 +17,15 @@ VARIABLES enabled, vbal, esc, sup, tok, registered, pairon,
           xreg,   \* X is registered (RegisterERC20)
           xbad,   \* the registered external token misbehaves on transfer (takes a cut): conversions into it never complete
           mx,     \* X tokens held by the module account (what it can pay out)
+          xdead,  \* the external token contract destroyed itself (its pair is removed by the next conversion that meets it)
+          nesc,   \* this chain's own coins escrowed on the channel to the first counterparty (sent out, not yet returned)
           out,    \* out[d]: vouchers of d sent back through the middleware and not yet settled (0: nothing outstanding)
           last
-stateVars == <<enabled, vbal, esc, sup, tok, registered, pairon, ext, xreg, xbad, mx, out>>
+stateVars == <<enabled, vbal, esc, sup, tok, registered, pairon, ext, xreg, xbad, mx, out, nesc, xdead>>
 vars == <<stateVars, last>>
 Val(a) == CASE a = "1" -> 1 [] a = "2" -> 2 [] OTHER -> 0
 Init == /\ enabled = TRUE /\ vbal = [d \in Vouchers |-> 0] /\ esc = vbal /\ sup = vbal /\ tok = vbal
-        /\ registered = [d \in Vouchers |-> FALSE] /\ pairon = registered /\ ext = registered /\ xreg = FALSE /\ xbad = FALSE /\ mx = 0 /\ out = vbal /\ last = [act |-> "Init", res |-> "ok"]
+        /\ registered = [d \in Vouchers |-> FALSE] /\ pairon = registered /\ ext = registered /\ xreg = FALSE /\ xbad = FALSE /\ mx = 0 /\ out = vbal /\ nesc = 0 /\ xdead = FALSE /\ last = [act |-> "Init", res |-> "ok"]
 (* the transfer application's verdict *)
 (* (receiver class "hexsender": the receiver is the user, the packet's sender field is not a bech32 string - an EVM hex address of the *)
 (* counterparty; the transfer application only asks for a non-blank sender)                                                          *)
@@ -33,31 +35,38 @@ Converts(d) == enabled /\ registered[d] /\ pairon[d]
 (* of the module's holdings, vouchers burnt - and when the module cannot pay, the whole conversion is undone.      *)
 RecvEff(d, a, r) ==
   IF ~TransferOK(a, r) THEN UNCHANGED stateVars
+  ELSE IF Converts(d) /\ ext[d] /\ xdead
+  (* the pair of a destroyed contract is removed (with all its vouchers' entries) and nothing is converted: the vouchers stay *)
+  THEN /\ sup' = [sup EXCEPT ![d] = @ + Val(a)] /\ vbal' = [vbal EXCEPT ![d] = @ + Val(a)]
+       /\ registered' = [e \in Vouchers |-> registered[e] /\ ~ext[e]] /\ pairon' = [e \in Vouchers |-> pairon[e] /\ ~ext[e]]
+       /\ ext' = [e \in Vouchers |-> FALSE] /\ xreg' = FALSE
+       /\ tok' = [e \in Vouchers |-> IF ext[e] THEN 0 ELSE tok[e]]          \* tokens of a destroyed contract are gone with it
+       /\ UNCHANGED <<enabled, esc, xbad, mx, out, nesc, xdead>>
   ELSE /\ IF Converts(d) /\ ~ext[d]
           THEN /\ sup' = [sup EXCEPT ![d] = @ + Val(a)] /\ esc' = [esc EXCEPT ![d] = @ + Val(a)]
-               /\ tok' = [tok EXCEPT ![d] = @ + Val(a)] /\ UNCHANGED <<vbal, mx>>
+               /\ tok' = [tok EXCEPT ![d] = @ + Val(a)] /\ UNCHANGED <<vbal, mx, nesc, xdead>>
           ELSE IF Converts(d) /\ ext[d] /\ mx >= Val(a) /\ ~xbad
-          THEN /\ tok' = [tok EXCEPT ![d] = @ + Val(a)] /\ mx' = mx - Val(a) /\ UNCHANGED <<vbal, esc, sup>>
-          ELSE /\ sup' = [sup EXCEPT ![d] = @ + Val(a)] /\ vbal' = [vbal EXCEPT ![d] = @ + Val(a)] /\ UNCHANGED <<esc, tok, mx>>
-       /\ UNCHANGED <<enabled, registered, pairon, ext, xreg, xbad, out>>
+          THEN /\ tok' = [tok EXCEPT ![d] = @ + Val(a)] /\ mx' = mx - Val(a) /\ UNCHANGED <<vbal, esc, sup, nesc, xdead>>
+          ELSE /\ sup' = [sup EXCEPT ![d] = @ + Val(a)] /\ vbal' = [vbal EXCEPT ![d] = @ + Val(a)] /\ UNCHANGED <<esc, tok, mx, nesc, xdead>>
+       /\ UNCHANGED <<enabled, registered, pairon, ext, xreg, xbad, out, nesc, xdead>>
 (* what the IBC core commits: "success" | "error" | "none" *)
 Committed(a, r) == IF ~TransferOK(a, r) THEN "error" ELSE IF HookReturnsAck THEN "success" ELSE "none"
 RegisterOK(d) == enabled /\ ~registered[d] /\ sup[d] > 0
 RegisterEff(d) == IF RegisterOK(d) THEN registered' = [registered EXCEPT ![d] = TRUE] /\ pairon' = [pairon EXCEPT ![d] = TRUE]
-                                        /\ UNCHANGED <<enabled, vbal, esc, sup, tok, ext, xreg, xbad, mx, out>>
+                                        /\ UNCHANGED <<enabled, vbal, esc, sup, tok, ext, xreg, xbad, mx, out, nesc, xdead>>
                   ELSE UNCHANGED stateVars
 (* RegisterERC20 of X; AddCoin of a voucher to X's pair (at most one voucher, so that X balances belong to it) *)
 RegisterExtOK == enabled /\ ~xreg
-RegisterExtEff(bad) == IF RegisterExtOK THEN xreg' = TRUE /\ xbad' = bad /\ UNCHANGED <<enabled, vbal, esc, sup, tok, registered, pairon, ext, mx, out>> ELSE UNCHANGED stateVars
+RegisterExtEff(bad) == IF RegisterExtOK THEN xreg' = TRUE /\ xbad' = bad /\ UNCHANGED <<enabled, vbal, esc, sup, tok, registered, pairon, ext, mx, out, nesc, xdead>> ELSE UNCHANGED stateVars
 AddExtOK(d) == enabled /\ xreg /\ ~registered[d] /\ sup[d] > 0 /\ \A e \in Vouchers : ~ext[e]
 AddExtEff(d) == IF AddExtOK(d) THEN /\ registered' = [registered EXCEPT ![d] = TRUE] /\ pairon' = [pairon EXCEPT ![d] = TRUE]
-                                    /\ ext' = [ext EXCEPT ![d] = TRUE] /\ UNCHANGED <<enabled, vbal, esc, sup, tok, xreg, xbad, mx, out>>
+                                    /\ ext' = [ext EXCEPT ![d] = TRUE] /\ UNCHANGED <<enabled, vbal, esc, sup, tok, xreg, xbad, mx, out, nesc, xdead>>
                 ELSE UNCHANGED stateVars
 (* a misbehaving token also takes its cut of what is handed to the module: somewhere between nothing and n arrives *)
-FundEff(n) == (IF xbad THEN \E g \in 0..n : mx' = mx + g ELSE mx' = mx + n) /\ UNCHANGED <<enabled, vbal, esc, sup, tok, registered, pairon, ext, xreg, xbad, out>>
+FundEff(n) == (IF xbad THEN \E g \in 0..n : mx' = mx + g ELSE mx' = mx + n) /\ UNCHANGED <<enabled, vbal, esc, sup, tok, registered, pairon, ext, xreg, xbad, out, nesc, xdead>>
 ToggleOK(d) == registered[d]
-ToggleEff(d) == IF ToggleOK(d) THEN pairon' = [pairon EXCEPT ![d] = ~@] /\ UNCHANGED <<enabled, vbal, esc, sup, tok, registered, ext, xreg, xbad, mx, out>> ELSE UNCHANGED stateVars
-ParamEff(on) == enabled' = on /\ UNCHANGED <<vbal, esc, sup, tok, registered, pairon, ext, xreg, xbad, mx, out>>
+ToggleEff(d) == IF ToggleOK(d) THEN pairon' = [pairon EXCEPT ![d] = ~@] /\ UNCHANGED <<enabled, vbal, esc, sup, tok, registered, ext, xreg, xbad, mx, out, nesc, xdead>> ELSE UNCHANGED stateVars
+ParamEff(on) == enabled' = on /\ UNCHANGED <<vbal, esc, sup, tok, registered, pairon, ext, xreg, xbad, mx, out, nesc, xdead>>
 (* The outbound direction: the holder sends vouchers back to where they came from.  The transfer application burns    *)
 (* them and commits a packet (through the middleware's SendPacket); the packet is settled exactly once, by an         *)
 (* acknowledgement or a timeout (through the middleware's OnAcknowledgementPacket / OnTimeoutPacket): a success       *)
@@ -65,18 +74,32 @@ ParamEff(on) == enabled' = on /\ UNCHANGED <<vbal, esc, sup, tok, registered, pa
 SendBackOK(d, a) == d \in BackDenoms /\ a \in {"1", "2"} /\ vbal[d] >= Val(a) /\ out[d] = 0
 SendBackEff(d, a) == IF SendBackOK(d, a)
                      THEN /\ vbal' = [vbal EXCEPT ![d] = @ - Val(a)] /\ sup' = [sup EXCEPT ![d] = @ - Val(a)] /\ out' = [out EXCEPT ![d] = Val(a)]
-                          /\ UNCHANGED <<enabled, esc, tok, registered, pairon, ext, xreg, xbad, mx>>
+                          /\ UNCHANGED <<enabled, esc, tok, registered, pairon, ext, xreg, xbad, mx, nesc, xdead>>
                      ELSE UNCHANGED stateVars
 Outcomes == {"success", "error", "timeout"}
 SettleOK(d) == out[d] > 0
 SettleEff(d, o) == IF SettleOK(d)
                    THEN /\ out' = [out EXCEPT ![d] = 0]
-                        /\ IF o = "success" THEN UNCHANGED <<vbal, sup>>
+                        /\ IF o = "success" THEN UNCHANGED <<vbal, sup, nesc, xdead>>
                            ELSE vbal' = [vbal EXCEPT ![d] = @ + out[d]] /\ sup' = [sup EXCEPT ![d] = @ + out[d]]
-                        /\ UNCHANGED <<enabled, esc, tok, registered, pairon, ext, xreg, xbad, mx>>
+                        /\ UNCHANGED <<enabled, esc, tok, registered, pairon, ext, xreg, xbad, mx, nesc, xdead>>
                    ELSE UNCHANGED stateVars
+(* This chain's own coins: the holder sends some to the first counterparty (escrowed here), and they come back in packets *)
+(* whose denomination carries the counterparty's port and channel - "returning native coins".  The transfer application    *)
+(* releases them from the escrow (it refuses a packet asking for more than is escrowed); the middleware has nothing to     *)
+(* convert and must leave the acknowledgement alone.                                                                       *)
+SendNatOK(a) == a \in {"1", "2"}
+SendNatEff(a) == IF SendNatOK(a) THEN nesc' = nesc + Val(a) /\ UNCHANGED <<enabled, vbal, esc, sup, tok, registered, pairon, ext, xreg, xbad, mx, out, xdead>> ELSE UNCHANGED stateVars
+NatTransferOK(a, r) == a \in {"1", "2"} /\ r \in {"user", "hexsender"} /\ nesc >= Val(a)
+RecvNatEff(a, r) == IF NatTransferOK(a, r) THEN nesc' = nesc - Val(a) /\ UNCHANGED <<enabled, vbal, esc, sup, tok, registered, pairon, ext, xreg, xbad, mx, out, xdead>> ELSE UNCHANGED stateVars
+(* the external token contract destroys itself *)
+DestroyExtEff == /\ xdead' = TRUE /\ mx' = 0 /\ tok' = [e \in Vouchers |-> IF ext[e] THEN 0 ELSE tok[e]]    \* its balances are gone with it
+                 /\ UNCHANGED <<enabled, vbal, esc, sup, registered, pairon, ext, xreg, xbad, out, nesc>>
 Res(ok) == IF ok THEN "ok" ELSE "err"
 Next ==
+  \/ xreg /\ ~xdead /\ DestroyExtEff /\ last' = [act |-> "DestroyExt", res |-> "ok"]
+  \/ \E a \in AmtClasses : nesc + Val(a) <= NatMax /\ SendNatEff(a) /\ last' = [act |-> "SendNat", res |-> Res(SendNatOK(a)), amt |-> a]
+  \/ \E a \in AmtClasses, r \in RecvClasses : RecvNatEff(a, r) /\ last' = [act |-> "RecvNat", res |-> "ok", amt |-> a, recv |-> r, committed |-> (IF NatTransferOK(a, r) THEN "success" ELSE "error")]
   \/ \E d \in Vouchers, a \in AmtClasses, r \in RecvClasses :
         RecvEff(d, a, r) /\ last' = [act |-> "Recv", res |-> "ok", denom |-> d, amt |-> a, recv |-> r, committed |-> Committed(a, r)]
   \/ \E d \in Vouchers : RegisterEff(d) /\ last' = [act |-> "Register", res |-> Res(RegisterOK(d)), denom |-> d]
